@@ -15,23 +15,34 @@ theorem chkN_of_lt (n : Nat) (h : n < 146097) : chkN n = true := by
 /-- the fact over the integers, as `civilFromDays` uses it -/
 theorem yoe_range (doe : Int) (h0 : 0 ≤ doe) (h1 : doe < 146097) :
     let yoe := (doe - doe / 1460 + doe / 36524 - doe / 146096) / 365
-    0 ≤ yoe ∧ yoe ≤ 399 ∧ 0 ≤ doe - (365 * yoe + yoe / 4 - yoe / 100) ∧ doe - (365 * yoe + yoe / 4 - yoe / 100) ≤ 365 := by
+    0 ≤ yoe ∧ yoe ≤ 399 ∧ 0 ≤ doe - (365 * yoe + yoe / 4 - yoe / 100) ∧ doe - (365 * yoe + yoe / 4 - yoe / 100) ≤ 365 ∧
+    (doe - (365 * yoe + yoe / 4 - yoe / 100) = 365 →
+      ((yoe + 1) % 4 = 0 ∧ (yoe + 1) % 100 ≠ 0) ∨ (yoe + 1) % 400 = 0) := by
   obtain ⟨n, rfl⟩ := Int.eq_ofNat_of_zero_le h0
   have hn : n < 146097 := by omega
   have hc := chkN_of_lt n hn
   simp only [chkN, yoeN, Bool.and_eq_true] at hc
-  obtain ⟨⟨hy, hs⟩, hd⟩ := hc
+  obtain ⟨⟨⟨hy, hs⟩, hd⟩, hl⟩ := hc
   have hy := of_decide_eq_true hy
   have hs := of_decide_eq_true hs
   have hd := of_decide_eq_true hd
+  simp only [Bool.or_eq_true] at hl
+  have hl : (n - (365 * ((n - n / 1460 + n / 36524 - n / 146096) / 365) + (n - n / 1460 + n / 36524 - n / 146096) / 365 / 4 -
+        (n - n / 1460 + n / 36524 - n / 146096) / 365 / 100) < 365) ∨
+      ((((n - n / 1460 + n / 36524 - n / 146096) / 365 + 1) % 4 = 0 ∧ ((n - n / 1460 + n / 36524 - n / 146096) / 365 + 1) % 100 ≠ 0) ∨
+        ((n - n / 1460 + n / 36524 - n / 146096) / 365 + 1) % 400 = 0) := by
+    rcases hl with h | h
+    · exact Or.inl (of_decide_eq_true h)
+    · right
+      simpa [leapN] using h
   have e1 : ((n - n / 1460 + n / 36524 - n / 146096 : Nat) : Int) = (n : Int) - n / 1460 + n / 36524 - n / 146096 := by
     omega
-  generalize hF : n - n / 1460 + n / 36524 - n / 146096 = F at hy hs hd e1
+  generalize hF : n - n / 1460 + n / 36524 - n / 146096 = F at hy hs hd hl e1
   have e2 : ((F / 365 : Nat) : Int) = (n - n / 1460 + n / 36524 - n / 146096 : Int) / 365 := by
     rw [← e1]; omega
   simp only []
   rw [← e2]
-  generalize F / 365 = Y at hy hs hd
+  generalize F / 365 = Y at hy hs hd hl
   omega
 
 end TableauVerif.Lemmas.CivilEra
